@@ -698,6 +698,16 @@ func stubBBPPut(it *Interp, fr *frame, cc *ssa.CallCommon, a []Value) Value {
 		return nil
 	}
 	b := it.loadCell(p.Obj, p.Off).(*Slice)
+	if it.Monitor && it.path != nil {
+		// the same buffer handed back twice: the pool then gives it to two owners at once
+		if it.poolPut == nil {
+			it.poolPut = map[*Object]bool{}
+		}
+		if it.poolPut[p.Obj] {
+			it.path.MonitorHits = append(it.path.MonitorHits, "C13.double-put: a pooled buffer is returned to the pool twice (two later owners would share it) in "+it.curFn())
+		}
+		it.poolPut[p.Obj] = true
+	}
 	if it.Monitor && b.Obj != nil {
 		b.Obj.Tag = "pool-released"
 	}
